@@ -30,7 +30,7 @@ def program_list(name):
             for o in ("|", "&", "-"):
                 out.append([o, x, y])
                 out.append([o, y, z])
-        for a, b in (("c16", "c8"), ("c4", "fsq"), ("lens", "ftri"), ("c8", "fbar")):
+        for a, b in (("c16", "c8"), ("c4", "fsq"), ("lens", "ftri"), ("c8", "fbar"), ("blob", "fsq")):
             for o in ("|", "&", "-"):
                 out.append([o, L("Q." + a), L("Q." + b)])
     return out
@@ -57,11 +57,48 @@ def observe(e, with_float=True):
     return obs
 
 
+def api_tour():
+    """Asks every kind of public question on objects that have nothing to do with the
+    programs: whatever the module remembers of it must not change later answers."""
+    from fractions import Fraction as F
+
+    from . import lib
+
+    for p in range(1, 5):
+        for ctrl in ([(F(k), F(k * k % 3)) for k in range(p + 1)], [(0.5 * k, 0.25 * ((k * 3) % 4)) for k in range(p + 1)]):
+            seg = lib.PlanarCurve(ctrl)
+            for k in range(p + 2, 0, -1):  # highest order first
+                seg.derivate(k)
+            seg(F(1, 3)), seg(0.25), seg.eval((F(1, 4), F(3, 4)))
+            seg.split((F(1, 3), F(2, 3)))
+            seg.box()
+            (0.1, 0.2) in seg
+            lib.IntegratePlanar.winding_number(seg, center=(10.0, 10.0))
+            lib.IntegratePlanar.vertical(seg, 2, 1)
+            lib.IntegratePlanar.vertical(seg, 0, 0, 9)
+            lib.IntegratePlanar.area(seg)
+            seg.invert()
+            seg.derivate(2)
+    for n in (3, 5, 8):
+        lib.Primitive.regular_polygon(n)
+        lib.Primitive.circle(radius=2, center=(1, 1), ndivangle=n + 1)
+    lib.Primitive.square(3, (1, 2))
+    lib.Primitive.triangle(2)
+    a, b = lib.Primitive.circle(ndivangle=5), lib.Primitive.square(1.5, (0.5, 0.25))
+    a | b, a & b, a - b, a ^ b, ~a, a == b, b in a, float(a), a.box()
+    (0.3, 0.1) in a
+    a.jordans[0].intersection(b.jordans[0], equal_beziers=False, end_points=False)
+    a.move(3, 4).scale(2, 2).rotate(0.5)
+    a.jordans[0].split([0], [F(1, 2)])
+    a.jordans[0].clean()
+
+
 if __name__ == "__main__":
     name = sys.argv[1]
     warm = len(sys.argv) > 2 and sys.argv[2] == "warm"
     progs_ = program_list(name)
-    if warm:  # run everything once first so that module-level memo tables are filled
+    if warm:  # an unrelated tour of the public API, then everything once, so that module-level memo tables are filled
+        api_tour()
         for e in progs_:
             observe(e)
     for e in progs_:
